@@ -1,5 +1,7 @@
 /* gen.c — see gen.h */
 #include "gen.h"
+#include <zlib.h>
+#include <ctype.h>
 
 const int gq_alts[GQ__N] = { 6, 5, 2, 3, 5, 5, 3, 4, 3, 5 };
 const int gs_alts[GS__N] = { 2, 6, 3, 5, 5, 5 };
@@ -304,4 +306,16 @@ int gx_compare(const gx_msg *t, htp_tx_t *tx, const hx_txrec *rec, hx_buf *err, 
         MIS("response_message_len expected %lld..%lld got %lld", (long long) t->res_message_len_min, (long long) t->res_message_len_max, (long long) tx->response_message_len);
     if (t->interim100 && tx->seen_100continue != 1) MIS("interim 100 response not recorded (seen_100continue=%d)", tx->seen_100continue);
     return bad;
+}
+
+void gx_deflate(hx_buf *out, const uint8_t *data, size_t n, int mode) {
+    z_stream z; memset(&z, 0, sizeof z);
+    int wb = mode == 0 ? 15 + 16 : mode == 1 ? 15 : -15;
+    if (deflateInit2(&z, 9, Z_DEFLATED, wb, 8, Z_DEFAULT_STRATEGY) != Z_OK) abort();
+    size_t cap = deflateBound(&z, (uLong) n) + 64;
+    uint8_t *tmp = malloc(cap);
+    z.next_in = (Bytef *) data; z.avail_in = (uInt) n; z.next_out = tmp; z.avail_out = (uInt) cap;
+    if (deflate(&z, Z_FINISH) != Z_STREAM_END) abort();
+    hb_put(out, tmp, cap - z.avail_out);
+    deflateEnd(&z); free(tmp);
 }
